@@ -177,6 +177,20 @@ static void gen_action(const struct zoo_w *w, int ctx, int ctxid, int when, int 
 	static const int kinds[] = { K_FD, K_TIMER, K_TASK, K_EVENT, K_RAW };
 
 	if ((r -= w->w_unreg) < 0) {
+		if (w->nfd >= 6 && P(30)) {
+			/* "reconnect": another descriptor object of this thread is unregistered, what its peer had
+			 * sent is thrown away, and the same structure is registered again as it is */
+			n = objs_of(thr, K_FD, list);
+			if (n) {
+				int x = list[R(n)];
+				add_op(ctx, ctxid, when, OP_UNREG, x, 1, 0, 0);
+				add_op(ctx, ctxid, when, OP_CONSUME, G->obj[x].p[0], G->obj[x].p[1], 65536, 0);
+				add_op(ctx, ctxid, when, OP_REG, x, 0, 0, 0);
+				if (P(60))	/* and now waits to be able to write to the new peer */
+					add_op(ctx, ctxid, when, OP_SETH, x, 1, 1, 0);
+				return;
+			}
+		}
 		if (self >= 0 && P(35)) {
 			add_op(ctx, ctxid, when, OP_UNREG, self, P(15), 0, 0);
 			return;
